@@ -128,7 +128,19 @@ def interpolate_unit(h):
                                         and table.attrs['_interpolators'].get(ph) is built[0]))
     fl, ms = used.calls[0]
     u = I.get_module('AEIC.units')
-    h.ensure('flight-level-is-altitude-times-the-librarys-factor', to_real(fl) == alt * to_real(Fraction(I.module_get(u, 'METERS_TO_FL'))))
+    # what the property needs of the conversion: the level the interpolator is asked for is the altitude times the library's
+    # factor - exactly whenever that product has no more than nine decimals (every tabulated level expressed in metres with
+    # the library's own factor is such a product), and never further from it than half a unit of the ninth decimal (so that
+    # bounds, continuity and refusal outside the table carry over up to that granularity)
+    x = alt * to_real(Fraction(I.module_get(u, 'METERS_TO_FL')))
+    d = to_real(fl) - x
+    kk = h.ctx.fresh('nine_decimal_number', z3.IntSort())
+    # (discharged from the facts about the rounding alone - definitions of the rounded value - not the whole path condition)
+    rounding_facts = [c for c in h.ctx.pc if 'rounded' in str(c)]
+    h.ensure_from('flight-level-is-altitude-times-the-librarys-factor-exactly-for-numbers-of-up-to-nine-decimals',
+                  z3.Implies(x * 1000000000 == z3.ToReal(kk), to_real(fl) == x), rounding_facts)
+    h.ensure('flight-level-never-further-from-that-product-than-half-a-unit-of-the-ninth-decimal',
+             z3.And(d <= z3.RealVal('1/2000000000'), d >= -z3.RealVal('1/2000000000')))
     lo = z3.If(masses[0] <= masses[1], z3.If(masses[0] <= masses[2], masses[0], masses[2]), z3.If(masses[1] <= masses[2], masses[1], masses[2]))
     hi = z3.If(masses[0] >= masses[1], z3.If(masses[0] >= masses[2], masses[0], masses[2]), z3.If(masses[1] >= masses[2], masses[1], masses[2]))
     want = [mass, lo, hi][mk]
@@ -612,6 +624,19 @@ def native_model_check(payload):
         for case in range(n):
             order = ['random', 'fl-major', 'descending', 'mass-major'][case % 4]
             fls, masses, rows = _gen_table(rnd, order=order)
+            if case < 3:
+                # tables whose lowest / highest level is one of those that the metre conversion does not return exactly
+                # (e.g. FL90 -> 89.99999999999999, FL230 -> 230.00000000000003 with the library's factors)
+                lows = [f for f in range(0, 300, 5) if f * FL_TO_METERS * METERS_TO_FL < f]
+                highs = [f for f in range(100, 600, 5) if f * FL_TO_METERS * METERS_TO_FL > f]
+                if lows and highs:
+                    lo_fl = rnd.choice(lows)
+                    hi_fl = rnd.choice([f for f in highs if f > lo_fl])
+                    mid = sorted(rnd.sample(range(lo_fl + 1, hi_fl), min(2, hi_fl - lo_fl - 1)))
+                    remap = dict(zip(fls, sorted({lo_fl, hi_fl, *mid})[:len(fls) - 1] + [hi_fl])) if len(fls) >= 2 else {}
+                    if len(set(remap.values())) == len(fls):
+                        rows = [[remap[r[0]]] + list(r[1:]) for r in rows]
+                        fls = sorted(remap.values())
             d = dict(base)
             d['flight_performance'] = dict(cols=['fl', 'mass', 'tas', 'rocd', 'fuel_flow'], data=[list(r) for r in rows])
             d['maximum_altitude_ft'] = int(max(fls) * 100)
@@ -626,14 +651,8 @@ def native_model_check(payload):
             for r in rows:
                 ph = phase_of(r)
                 alt = r[0] * FL_TO_METERS
-                # machine rounding of the product is not part of the claim (floats are treated as reals): an altitude whose
-                # flight level falls outside the table by at most 4 ulp is moved back inside
-                for _ in range(4):
-                    back = alt * METERS_TO_FL
-                    if back > fls[-1] and back - fls[-1] <= 4 * math.ulp(float(fls[-1])):
-                        alt = math.nextafter(alt, -math.inf)
-                    elif back < fls[0] and fls[0] - back <= 4 * math.ulp(max(1.0, float(fls[0]))):
-                        alt = math.nextafter(alt, math.inf)
+                # exactly what the statement says: the tabulated level expressed in metres with the library's own factor (the few ulp
+                # that the product may be off by are the library's business: the level must still be found, with its values)
                 try:
                     p = pm.evaluate(AircraftState(altitude=alt, aircraft_mass=r[1]), ph)
                 except Exception as e:   # noqa
